@@ -1,5 +1,5 @@
 """C02 - operator tables build the tree dictated by precedence and associativity."""
-from contracts import optable, optable_ref, core, bind
+from contracts import optable, optable_ref, core, bind, segments
 from pyvc.report import Report
 from .common import run_fragments
 from . import wiring
@@ -16,6 +16,9 @@ def run(tier, seed):
     run_fragments(rep, optable.OPTABLE + [core.LongestC(), bind.ApplyC(), core.ChoiceC()], tier,
                   only_cfg=lambda c, cfg: len(cfg.get('flags', [])) <= 3)
     optable.CreateC().obligations(rep, tier)
+    # tables with many rows of one kind combine them by Longest of that arity: proved for every arity by segment induction
+    segments.LongestSegments().run(rep, tier)
+    segments.ChoiceSegments().run(rep, tier)
     wiring.a_subst_obligations(rep, tier)
     maxlen = 6 if tier == 'quick' else 8
     bad, tried, bound = optable_ref.bounded(maxlen)
